@@ -217,6 +217,34 @@ def oracle_run(ck, inp, exp, starts, rows, m0=0):
         ck.oracle_fail('exactly_N', inp, {'recorded': exp['recorded']}, signature=sig)
 
 
+# ------------------------------------------------------------------ deferred model calls (one driver start per batch)
+class ModelQueue(object):
+    def __init__(self, ck, limit=150):
+        self.ck = ck
+        self.items = []
+        self.limit = limit
+
+    def add(self, op, callback):
+        self.items.append((op, callback))
+        if len(self.items) >= self.limit:
+            self.flush()
+
+    def flush(self):
+        items, self.items = self.items, []
+        if not items:
+            return
+        answers = self.ck.model([op for op, _cb in items])
+        for (_op, cb), ans in zip(items, answers):
+            cb(ans)
+
+
+def queue_of(ck):
+    q = getattr(ck, '_model_queue', None)
+    if q is None:
+        q = ck._model_queue = ModelQueue(ck)
+    return q
+
+
 # ------------------------------------------------------------------ part B: runs sharing executables
 def check_shared(ck, scn, sess, tag):
     wd = _mkwd(ck)
@@ -228,8 +256,7 @@ def check_shared(ck, scn, sess, tag):
                        signature={'status': obs['status'], 'exception': (obs['crash'] or [None])[0]})
         return
     op = session_op('c04.session', scn, sess, obs['order'])
-    ans = ck.model([op])[0]
-    compare_session(ck, 'c04.session', inp, obs, ans, THEOREMS_SHARED)
+    queue_of(ck).add(op, lambda ans: compare_session(ck, 'c04.session', inp, obs, ans, THEOREMS_SHARED))
     n127 = sum(1 for s in sess['scripts'] for o in s if o.get('rc') == 127)
     ck.count('shared:%s:%d-runs' % (sess.get('sched', 'batch'), len(scn['runs'])))
     ck.case(nontrivial_key=(tag, str(scn), str(sess)) if n127 else None,
@@ -467,6 +494,7 @@ def run(ck):
     for name, data in load_corpus(ck):
         ck.count('corpus')
         run_input(ck, data['input'], 'corpus:' + name)
+    queue_of(ck).flush()
     # (A1) exhaustive enumeration
     max_len = 5 if quick else 8
     max_n = 3 if quick else 4
@@ -508,6 +536,7 @@ def run(ck):
     for _ in range(60 if quick else 1500):
         scn, sess = shared_scenario(rng)
         check_shared(ck, scn, sess, 'shared')
+    queue_of(ck).flush()
     if ck.disagreements:
         search_neighbourhood(ck)
 
@@ -515,3 +544,4 @@ def run(ck):
 def replay(ck, data):
     ck.pending_search = []
     run_input(ck, data['input'], 'replay')
+    queue_of(ck).flush()
